@@ -710,3 +710,90 @@ func init() {
 		return sched.Config{Bounds: b, Iterative: true, MaxSteps: 200000}, c02scanHostChangeBody
 	}})
 }
+
+// ---------------------------------------------------------------------------
+// C02 (H) a host-list notice that concerns several backend connections at once, each with a request in flight to
+// a node that never answers.
+//
+// alphabet  3 masters, all silent; one connection per node with a GET in flight | one MGET over the three nodes;
+//           notice: replace all hosts by another list | remove all three | remove two | remove one
+// bound     every combination, default schedule
+// oracle    every request whose node was dropped by the notice is answered (an error is fine): no client is left
+//           waiting for a connection the proxy has given up
+// ---------------------------------------------------------------------------
+
+func c02noticeManyBody() {
+	notice := []string{"replace-all", "remove-all", "remove-two", "remove-one"}[sched.Choose(sched.ClsInput, 4, "notice")]
+	multi := sched.Choose(sched.ClsInput, 2, "one MGET over the three nodes") == 1
+	cl := cluster.New(3, 0, 3)
+	s := vfStartStack(cl, vfSvcConfig(0, nil, 0))
+	keys := []string{cl.KeyInGroup("k", 0, 0), cl.KeyInGroup("k", 1, 0), cl.KeyInGroup("k", 2, 0)}
+	var clients []*vfClient
+	for i := 0; i < 3; i++ {
+		c := s.NewClient(fmt.Sprintf("c%d", i))
+		if v, err := c.Do("SET", keys[i], "v"); err != nil || v.Kind != '+' { // (a connection to every node exists)
+			sched.Fail("harness-notice-many", fmt.Sprintf("SET: %s %v", v, err))
+			return
+		}
+		clients = append(clients, c)
+	}
+	for _, n := range cl.Nodes {
+		n.Stalled = true
+	}
+	dropped := map[int]bool{}
+	switch notice {
+	case "replace-all", "remove-all":
+		dropped[0], dropped[1], dropped[2] = true, true, true
+	case "remove-two":
+		dropped[0], dropped[1] = true, true
+	case "remove-one":
+		dropped[1] = true
+	}
+	if multi {
+		clients = clients[:1]
+		clients[0].Send(resp.Encode(resp.Cmd("MGET", keys[0], keys[1], keys[2])))
+	} else {
+		for i, c := range clients {
+			c.Send(resp.Encode(resp.Cmd("GET", keys[i])))
+		}
+	}
+	sched.WaitQuiescent()
+	var hs []*host.Host
+	for i, n := range cl.Nodes {
+		if dropped[i] {
+			hs = append(hs, host.New(n.Addr))
+		}
+	}
+	switch notice {
+	case "replace-all":
+		s.p.OnSvcAllHostReplace([]*host.Host{host.New("10.9.9.9:6379")})
+	default:
+		s.p.OnSvcHostRemove(hs)
+	}
+	sched.WaitQuiescent()
+	tag := fmt.Sprintf("notice %s, one MGET=%v", notice, multi)
+	for i, c := range clients {
+		rs, _ := c.Pending()
+		mustAnswer := dropped[i]
+		if multi {
+			mustAnswer = len(dropped) == 3
+		}
+		if mustAnswer && len(rs) != 1 {
+			sched.Fail("client-waits-forever / host notice concerning several backend connections", fmt.Sprintf("%s: connection %d (its node was dropped and never answers) received %d replies", tag, i, len(rs)))
+		}
+		if len(rs) > 1 {
+			sched.Fail("more-replies-than-requests / host notice concerning several backend connections", fmt.Sprintf("%s: connection %d received %v", tag, i, rs))
+		}
+	}
+	sched.SetOutcome(tag)
+}
+
+func init() {
+	sched.Register(&sched.Scenario{Name: "C02/notice-many", Setup: func(tier string) (sched.Config, func()) {
+		b := sched.Bounds{}
+		if tier == "thorough" {
+			b = sched.Bounds{P: 1, F: 1}
+		}
+		return sched.Config{Bounds: b, Iterative: true, MaxSteps: 200000}, c02noticeManyBody
+	}})
+}
